@@ -30,9 +30,9 @@ class C17(Prop):
     stages = ('S1',)
     needs = ('cells', 'svg')
     rule = 'each item renders an input, its CRLF form, a form with blanks appended to lines, and a form with 1-5 blank lines appended; parsed documents (expat, XML end-of-line normalisation) must be equal; non-trivial when the input has at least two lines'
-    level_text = ('Theorems C17_crlf_same_rows (all inputs), C17_crlf_same_document (all legend-free inputs, whole document), C17_trailing_blanks_in_a_row (all rows incl. quoted segments and unbalanced quotes), C17_trailing_blank_rows. '
-                  'The legend clause under CRLF is stated (C17_full) and decided by the text-stage correspondence and the oracle.')
-    level_note = 'partial for inputs with a legend: the CRLF clause of the legend grammar is covered by correspondence plus oracle, not by a theorem'
+    level_text = ('Theorems C17_crlf_same_rows, C17_crlf_same_document / C17_crlf_same_output (for ALL inputs, with or without a legend, the document and the output string are equal under LF and CRLF: the drawing is split into lines and the legend is read with CRLF taken as LF, repair F13), '
+                  'C17_trailing_blanks_in_a_row (all rows incl. quoted segments and unbalanced quotes), C17_trailing_blank_rows.')
+    level_note = 'trailing blanks after legend entries and blank lines inside a legend are covered by the legend grammar lemmas of C16 plus correspondence and oracle'
     def make(self, gen, text, variants):
         runs = {'base': Run(text, '', 'settings')}
         for k, v in variants.items(): runs[k] = Run(v, '', 'settings')
